@@ -74,7 +74,7 @@ class Check:
             name = "ln%d" % li
             li += 1
             lp = d + "/" + name
-            kind = rng.choice(["dir_in", "dir_in", "dir_sib", "dir_sib", "file", "ancestor", "dot", "parent", "parent", "above", "mutual", "chain", "dangling", "selfloop"])
+            kind = rng.choice(["dir_in", "dir_in", "dir_sib", "dir_sib", "file", "ancestor", "dot", "parent", "parent", "above", "mutual", "chain", "dangling", "selfloop", "sametext"])
             if outside and kind in ("ancestor", "mutual", "file"):
                 kind = "parent"
             absolute = rng.random() < 0.4
@@ -116,6 +116,22 @@ class Check:
                 have.add(lp)
                 nodes.append({"path": l2, "type": "symlink", "target": ("$W/" + t) if absolute and rng.random() < 0.5 else rel_to(l2, t)})
                 nodes.append({"path": lp, "type": "symlink", "target": ("$W/" + l2) if absolute else rel_to(lp, l2)})
+            elif kind == "sametext" and len(dirs_in) >= 2:
+                # two links in different directories whose target text is byte-identical but, resolved against each link's own
+                # directory, denotes a directory for one and a file / nothing for the other
+                a, b = rng.sample(dirs_in, 2)
+                text = rng.choice(["st%d" % li, "./st%d" % li, "st%d/." % li])
+                base_ = "st%d" % li
+                pa, pb, la, lb = a + "/" + base_, b + "/" + base_, a + "/sa%d" % li, b + "/sb%d" % li
+                if any(x in have for x in (pa, pb, la, lb)):
+                    continue
+                have.update((pa, pb, la, lb))
+                nodes.append({"path": pa, "type": "dir"})
+                nodes.append({"path": pa + "/behind", "type": "file", "content": "x"})
+                if rng.random() < 0.6:
+                    nodes.append({"path": pb, "type": "file", "content": ""})
+                nodes.append({"path": la, "type": "symlink", "target": text})
+                nodes.append({"path": lb, "type": "symlink", "target": text})
             elif kind == "dangling":
                 nodes.append({"path": lp, "type": "symlink", "target": spell(ROOT + "/no/such")})
             else:
